@@ -239,3 +239,41 @@ Proof.
   - destruct (find (fun j => String.eqb p (fst j)) jobs); [reflexivity|]. cbn [option_map].
     rewrite run_job by assumption. rewrite E. reflexivity.
 Qed.
+
+(* ---------------------------------------------------------------- FileSync writes B (and a LostCode file next to it) only *)
+Lemma run_tl_job_ops jb s : run (tl (job_ops jb)) s = run (job_ops jb) s.
+Proof. destruct jb as [t chunks]. reflexivity. Qed.
+
+Theorem filesync_touches_only_its_targets path_b a b s p :
+  jobs_okb (filesync_jobs path_b a b) = true -> is_tmp p = false ->
+  ~ In p (targets (filesync_jobs path_b a b)) ->
+  fs_get p (disk_fs (run (filesync_ops path_b a b) s)) = fs_get p (disk_fs s).
+Proof.
+  intros Hok Hp Hnot. unfold filesync_ops.
+  destruct (filesync_jobs path_b a b) as [|jb rest] eqn:E; [reflexivity|].
+  rewrite run_app, run_tl_job_ops, <- run_app.
+  change (job_ops jb ++ jobs_ops rest) with (jobs_ops (jb :: rest)).
+  rewrite complete_run by assumption.
+  assert (Hn : new_content (jb :: rest) p = None).
+  { unfold new_content. clear -Hnot. induction (jb :: rest) as [|x l IH]; [reflexivity|].
+    simpl in *. destruct (String.eqb p (fst x)) eqn:Ex.
+    - apply String.eqb_eq in Ex. exfalso. apply Hnot. left. symmetry. exact Ex.
+    - apply IH. intros H. apply Hnot. right. exact H. }
+  rewrite Hn. reflexivity.
+Qed.
+
+(* and B receives exactly the synchronised content *)
+Theorem filesync_writes_b path_b a b s :
+  jobs_okb (filesync_jobs path_b a b) = true -> is_tmp path_b = false ->
+  fs_get path_b (disk_fs (run (filesync_ops path_b a b) s))
+  = Some (concat_lines (fst (emplace true (collect (read_lines a)) (read_lines b)))).
+Proof.
+  intros Hok Hp. unfold filesync_ops.
+  destruct (filesync_jobs path_b a b) as [|jb rest] eqn:E.
+  - unfold filesync_jobs in E. destruct (emplace true _ _). discriminate.
+  - rewrite run_app, run_tl_job_ops, <- run_app.
+    change (job_ops jb ++ jobs_ops rest) with (jobs_ops (jb :: rest)).
+    rewrite complete_run by assumption.
+    unfold filesync_jobs in E. destruct (emplace true (collect (read_lines a)) (read_lines b)) as [out used] eqn:Ee.
+    inversion E; subst. unfold new_content. cbn [find fst]. rewrite String.eqb_refl. reflexivity.
+Qed.
